@@ -5,6 +5,7 @@ import (
 	"encoding/json"
 	"fmt"
 	"sort"
+	_ "verif/h/duoc"
 
 	"github.com/biogo/biogo/alphabet"
 	"github.com/biogo/biogo/feat"
